@@ -107,6 +107,12 @@ class SetWorld(object):
         return e
 
     # -- the extensional postcondition ---------------------------------------
+    def snapshot_opaque(self, o):
+        """identity-level snapshot of an opaque operand: its attribute names and the identities of their values"""
+        if o is None or not hasattr(o, "__dict__"):
+            return repr(o)
+        return tuple(sorted((k, id(v)) for k, v in vars(o).items()))
+
     def ensure_intersection(self, out, a, b, allowed, label="result"):
         vc = self.vc
         vc.ensure("%s: does not raise" % label, out.returned)
